@@ -10,7 +10,7 @@ import <ID> <mk>    : copies a validated change to /verif/seeded/<ID>-<mk>/ (pat
 import json, os, re, shutil, subprocess, sys, tempfile, time
 
 ENV = dict(os.environ, GOFLAGS='-mod=mod', GOPROXY='off', GOSUMDB='off', GOTOOLCHAIN='local')
-SRC = '/tmp/mut'
+SRC = os.environ.get("SEED_SRC", "/tmp/mut")
 
 
 def sh(cmd, cwd, timeout=1800):
